@@ -18,6 +18,7 @@ RTF_FEATURES = {
     "surrogate-pair": "non-BMP character as \\u-10179?\\u-8704? (twin: BMP character \\u8364?)",
     "pict-hex-wrapped": "picture hex data wrapped into 64-character lines (twin: one line)",
     "lone-surrogate-escape": "a \\uN escape holding a trail surrogate without its lead (a cut-off emoji) (twin: the complete pair)",
+    "u-control-words": "control words that begin with the letter u but are not \\uN escapes: \\uc1, \\ul, \\ulnone, \\up6, \\uldb (twin: \\b, \\i0, \\dn6, \\strike)",
     "unicode-with-hex-fallback": "\\u8364\\'80 (unicode escape followed by its \\'hh fallback) (twin: \\u8364?)",
 }
 
@@ -29,6 +30,9 @@ def build_rtf(seed: int, feature: str | None = None, twin: bool = False):
     exp.unit_mode = "exact"
     exp.tables_claimed = True
     exp.images_claimed = True
+    # every visible non-token string this writer puts into body text (footnote words, escapes); field instructions, bookmark names,
+    # object data and font names are not visible text
+    exp.literals = ["1", "some words of a footnote, long enough to matter", "€", "é", "\U0001F600", "https://example.org/", "https://example.org/n"]
     if feature:
         exp.features.add(feature if not twin else feature + "#twin")
     risky = feature if not twin else None
@@ -175,6 +179,12 @@ def build_rtf(seed: int, feature: str | None = None, twin: bool = False):
                 a, b2 = w("b", 1, 1)[0], w("b", 1, 1)[0]
                 out.append("\\pard " + a + (" \\u8364? " if twin else " \\u8364\\'80 ") + b2 + "\\par\n")
                 exp.between.append((a, b2, "€"))
+            elif feature == "u-control-words":
+                t = [w("b", 1, 1)[0] for _ in range(6)]
+                if twin:
+                    out.append("\\pard\\b0 %s {\\i %s}\\i0  %s {\\dn6 %s} {\\strike %s}\\strike0  %s\\par\n" % tuple(t))
+                else:
+                    out.append("\\pard\\uc1 %s {\\ul %s}\\ulnone  %s {\\up6 %s} {\\uldb %s}\\ul0  %s\\par\n" % tuple(t))
             elif feature == "lone-surrogate-escape":
                 # half of a surrogate pair on its own, in body text and in a table cell (twin: the complete pair)
                 a, b2 = w("b", 1, 1)[0], w("b", 1, 1)[0]
